@@ -40,8 +40,8 @@ impl PairTable {
             "lg_size must be in [2, 26], got {lg_size}"
         );
         assert!(
-            ((lg_size + 1)..=32).contains(&num_valid_bits),
-            "num_valid_bits must be in [lg_size + 1, 32], got {num_valid_bits} where lg_size = {lg_size}"
+            (1..=32).contains(&num_valid_bits),
+            "num_valid_bits must be in [1, 32], got {num_valid_bits}"
         );
         Self {
             lg_size,
@@ -201,7 +201,9 @@ impl PairTable {
         let size = 1 << self.lg_size;
         let mask = size - 1;
 
-        let shift = self.num_valid_bits - self.lg_size;
+        // A table may legitimately grow to (or past) 2^num_valid_bits slots when most of the
+        // possible items are present; the probe then starts at the item itself.
+        let shift = self.num_valid_bits.saturating_sub(self.lg_size);
 
         // extract high table size bits
         let mut probe = item >> shift;
@@ -224,11 +226,6 @@ impl PairTable {
         assert!(
             (2..=26).contains(&lg_size),
             "lg_size must be in [2, 26], got {lg_size}"
-        );
-        assert!(
-            ((lg_size + 1)..=32).contains(&self.num_valid_bits),
-            "num_valid_bits must be in [lg_size + 1, 32], got {} where lg_size = {lg_size}",
-            self.num_valid_bits
         );
 
         let new_size = 1u32 << lg_size;
